@@ -446,7 +446,7 @@ func (s *scope) setInstance(descriptor *Descriptor, key instanceKey, instance an
 		// as soon as another goroutine can find it there it can construct a
 		// dependent of it, and the dependent has to come later in the disposal
 		// list so that it is closed first.
-		if d, ok := instance.(Disposable); ok {
+		if d, ok := disposableOf(instance); ok {
 			s.disposablesMu.Lock()
 			if s.drained {
 				// Close has already disposed the tracked instances; an instance
@@ -487,7 +487,7 @@ func (s *scope) storeOutput(descriptor *Descriptor, key instanceKey, value any) 
 	}
 
 	if descriptor.Lifetime == Singleton {
-		if d, ok := value.(Disposable); ok {
+		if d, ok := disposableOf(value); ok {
 			s.rootProvider.disposablesMu.Lock()
 			s.rootProvider.disposables = append(s.rootProvider.disposables, d)
 			s.rootProvider.disposablesMu.Unlock()
@@ -496,6 +496,26 @@ func (s *scope) storeOutput(descriptor *Descriptor, key instanceKey, value any) 
 	}
 
 	return s.setInstance(&Descriptor{Lifetime: Transient}, key, value)
+}
+
+// disposableOf returns the instance as a Disposable if there is something to
+// dispose. A nil pointer (an output its constructor left nil) has the Close
+// method of its type, but it is no instance: calling Close on it would
+// dereference nil in user code.
+func disposableOf(instance any) (Disposable, bool) {
+	d, ok := instance.(Disposable)
+	if !ok {
+		return nil, false
+	}
+
+	switch v := reflect.ValueOf(instance); v.Kind() {
+	case reflect.Pointer, reflect.Map, reflect.Slice, reflect.Func, reflect.Chan:
+		if v.IsNil() {
+			return nil, false
+		}
+	}
+
+	return d, true
 }
 
 var (
